@@ -562,7 +562,7 @@ def _find_conflict(
             nodes = sorted(
                 [node_1, node_2]
                 + list(flatten(nodes for _, _, nodes in subconflicts)),
-                key=lambda n: n.loc,
+                key=lambda n: n.loc or (0, 0),
             )
             return response_name, reason, nodes
 
